@@ -1,0 +1,20 @@
+//go:build verif
+
+package proxy
+
+import (
+	"context"
+
+	"github.com/fabiolb/fabio/route"
+	"google.golang.org/grpc/metadata"
+)
+
+// Verification hook for property C03 (request routing): the route lookup of the gRPC interceptor, the second
+// caller of Table.Lookup. No behaviour is changed.
+
+// VerifC03GRPCLookup runs GrpcProxyInterceptor.lookup for a call with the given incoming metadata and full
+// method name against the active routing table.
+func VerifC03GRPCLookup(g GrpcProxyInterceptor, md map[string][]string, fullMethodName string) (*route.Target, error) {
+	ctx := metadata.NewIncomingContext(context.Background(), metadata.MD(md))
+	return g.lookup(ctx, fullMethodName)
+}
